@@ -34,25 +34,17 @@ theorem updateState_finSent (f : Flow) (p : Pkt) :
         · rename_i h; simp [h.1]
         · simp
 
-theorem updateState_addr (f : Flow) (p : Pkt) :
-    (f.updateState p).v6 = f.v6 ∧ (f.updateState p).dst = f.dst ∧ (f.updateState p).dport = f.dport := by
-  unfold Flow.updateState
-  split
-  · exact ⟨rfl, rfl, rfl⟩
-  · split
-    · exact ⟨rfl, rfl, rfl⟩
-    · split
-      · exact ⟨rfl, rfl, rfl⟩
-      · split <;> exact ⟨rfl, rfl, rfl⟩
-
 theorem processPacket_flow (f : Flow) (p : Pkt) :
     (f.processPacket p).1.state = (f.updateState p).state ∧ (f.processPacket p).1.v6 = f.v6 ∧
     (f.processPacket p).1.dst = f.dst ∧ (f.processPacket p).1.dport = f.dport := by
-  obtain ⟨h1, h2, h3⟩ := updateState_addr f p
+  obtain ⟨h0, h1, h2, h3, _⟩ := pre_fields f p
   unfold Flow.processPacket
-  cases p.payload with
-  | none => exact ⟨rfl, h1, h2, h3⟩
-  | some d => exact ⟨rfl, h1, h2, h3⟩
+  simp only
+  split
+  · exact ⟨h0, h1, h2, h3⟩
+  · cases p.payload with
+    | none => exact ⟨h0, h1, h2, h3⟩
+    | some d => exact ⟨h0, h1, h2, h3⟩
 
 /-! ### routing inside a stream -/
 
